@@ -278,6 +278,9 @@ def prove_zero(ctx, name, x, rounds=2, max_deg=8, max_inst=6000, key=None,
             lp.inst_budget_s = inst_budget_s
             r2, dt = lp.prove_zero(cleared, rounds, max_deg + 6, max_inst)
             if r2 == 'unsat':
+                if lemma:   # q^e p = 0 and q r = 1 (q != 0)  =>  p = 0
+                    for p in nz:
+                        ctx.hyps.append(('lemma:' + name, p))
                 return ctx.record(name, 'unsat',
                                   'lra-abstraction(cleared-denominators)',
                                   key=key, instances=lp.instances)
